@@ -166,6 +166,11 @@ def handle (args : List String) : String :=
     " ".intercalate ((IntI.names.map fun p => "I." ++ p.1) ++ (FloatI.names.map fun p => "F." ++ p.1) ++
       (BoolI.names.map fun p => "B." ++ p.1) ++ (ExecI.names.map fun p => "E." ++ p.1) ++
       ["I.Push", "F.Push", "B.Push", "E.Push"])
+  | "opens" :: toks =>
+    -- the documented number of blocks each of the given instructions opens when used as a gene
+    match parseProgs (toks.length + 1) toks with
+    | some ps => " ".intercalate (ps.map fun p => toString p.numOpens)
+    | none => "bad-request"
   | mode :: rest =>
     match mode, sections rest with
     | "run", [hdr, exec, ints, floats, bools, inputs] =>
